@@ -121,6 +121,10 @@ func genSST(r *core.Rand, thorough bool) ([]sstEntry, string) {
 			if big < 3 {
 				big++
 				e.V = r.Bytes(r.Range(60000, 200000))
+				if r.Chance(12) {
+					// a value far beyond the block size: the writer cuts a block only after the entry that crosses 64KB
+					e.V = r.Bytes(r.Range(1100000, 2600000))
+				}
 			} else {
 				e.V = []byte("x")
 			}
@@ -237,12 +241,23 @@ func runC11(c *core.Ctx, res *core.Result) {
 		}
 	}
 	targets = append(targets, []byte{0x00}, bytes.Repeat([]byte{0xff}, 70), ents[0].K, ents[len(ents)-1].K)
+	var reuse *sstable.Iterator
+	nseek := 0
 	for _, t := range targets {
 		if len(t) == 0 {
 			continue
 		}
 		idx := sort.Search(len(ents), func(i int) bool { return bytes.Compare(ents[i].K, t) >= 0 })
-		it := rd.NewIterator()
+		// every third seek re-uses the iterator of the previous one (already positioned somewhere else, possibly
+		// many blocks away, possibly exhausted)
+		it := reuse
+		if it == nil || nseek%3 != 2 {
+			it = rd.NewIterator()
+		} else {
+			res.Count("seeks_on_a_positioned_iterator", 1)
+		}
+		nseek++
+		reuse = it
 		ok := it.Seek(t)
 		res.Count("seeks", 1)
 		if idx == len(ents) {
